@@ -294,7 +294,7 @@ def RealShift (T : Tables) (s : PState) : Prop :=
     a ≠ acceptCode ∧ s.la ≠ tERROR
 
 /-- The edge followed by the inner loop of `_recover` when the action on ERROR is a reduction:
-`state, _ = _Find(_goto, state, rule)` WITHOUT popping (0 when the goto entry is missing). -/
+`state, ok = _Find(_goto, state, rule)` WITHOUT popping (no edge when the goto entry is missing: the loop is left). -/
 def simNext (T : Tables) (st : Int) : Option Int :=
   match find T.actions st tERROR with
   | .hit action =>
@@ -304,7 +304,7 @@ def simNext (T : Tables) (st : Int) : Option Int :=
       | some rule =>
         match find T.gotos st rule with
         | .oob => none
-        | .miss => some 0
+        | .miss => none
         | .hit st' => some st'
     else none
   | _ => none
